@@ -68,12 +68,12 @@ def universes(tier, seed):
     u2 = [V('A', (1, 2, 3)), V('A', (3, 1, 2)), V('A', (3, 1, 2), (1, 2, 3)), V('A', (1, 2, 3), (3, 1, 2)),
           V('G', (1, 2, 3)), V('E', (1, 2, 3)), V('A', (1, 2))]
     if tier == 'quick':
-        return [u1, u2]
+        return [(u1, 4), (u2, 3)]
     u3 = [V('A', (1, 2, 3), (2, NOAID, 1)), V('A', (1, 2, 3), (5, 5, 1)), V('A', (2, 3, 1), (NOAID, 1, NOAID)),
           V('G', (3, 2, 1), (1, 2, 3)), V('G', (3, 2, 1), (3, 2, 1)), V('C', (1, 2, 3)), V('D', (1, 2, 3)), V('B', (2, 1))]
     u4 = [V('G', (1, 2, 3), (2, 3, 1)), V('G', (2, 1, 3), (2, 3, 1)), V('G', (2, 1, 3)), V('E', (2, 1, 3)),
           V('A', (2, 1, 3)), V('A', (2, 1, 3), (2, 1, 3)), V('C', (2, 1, 3), (2, 1, 3)), V('D', (2, 1))]
-    out = [u1 + [V('E', (1, 2)), V('A', (1, 2), (2, 1))], u2 + [V('B', (3, 1, 2))], u3, u4]
+    out = [(u1 + [V('E', (1, 2)), V('A', (1, 2), (2, 1))], 4), (u2 + [V('B', (3, 1, 2))], 4), (u3, 4), (u4, 4)]
     rng = random.Random(seed * 9176 + 5)
     space = []
     for sh in SHAPES:
@@ -83,11 +83,11 @@ def universes(tier, seed):
     for _ in range(2):
         base = rng.choice(space)
         near = [v for v in space if sum(v[k] != base[k] for k in ('shape', 'order', 'aid')) == 1]
-        out.append([base] + rng.sample(near, 5) + rng.sample(space, 2))
+        out.append(([base] + rng.sample(near, 5) + rng.sample(space, 2), 4))
     return out
 
 
-def consts_of(universe):
+def consts_of(universe, maxmols=MAXMOLS):
     tab = '[' + ', '.join('%s |-> %s' % (s, T(tuple({'name': a[0], 'resname': a[1], 'resid': a[2]} for a in d['atoms'])))
                           for s, d in SHAPES.items()) + ']'
     bonds = '[' + ', '.join('%s |-> %s' % (s, T(tuple(tuple(b[0]) for b in d['bonds']))) for s, d in SHAPES.items()) + ']'
@@ -95,7 +95,7 @@ def consts_of(universe):
     for v in universe:
         if v not in uniq:
             uniq.append(v)
-    return {'Universe': '{' + ', '.join(T(v) for v in uniq) + '}', 'MaxMols': str(MAXMOLS), 'ShapeTab': tab,
+    return {'Universe': '{' + ', '.join(T(v) for v in uniq) + '}', 'MaxMols': str(maxmols), 'ShapeTab': tab,
             'ShapeBonds': bonds, 'NameStr': T(tuple(NAMESTR))}
 
 
@@ -272,7 +272,8 @@ def _replay_range(job):
         e['equal_model'] = model_view(e) == model_expect(st) and not e['top_malformed']
         if not e['equal_model']:
             e['model'] = model_expect(st)
-        e['files'] = files
+        if not e['equal_model']:
+            e['files'] = files
         out['events'].append(e)
         if len(variants) >= 2 and len(system_features(variants, names, st['sorted'])) >= 2:
             out['nontrivial'].add(_hash(scenario))
@@ -282,13 +283,21 @@ def _replay_range(job):
     return out
 
 
-def _dump_ranges(path, nparts):
+def _dump_ranges(path, nparts, marker=b'pc = "done"'):
+    """Byte ranges of the dump that together hold all states containing `marker` (TLC dumps breadth first, so the final
+    states sit at the end of the file), balanced by the number of such states."""
     with open(path, 'rb') as fh:
         data = fh.read()
-    starts = [mm.start() for mm in _HDR.finditer(data)]
-    step = max(1, len(starts) // nparts)
-    cuts = starts[::step] + [len(data)]
-    return [(path, cuts[i], cuts[i + 1]) for i in range(len(cuts) - 1)]
+    starts = [mm.start() for mm in _HDR.finditer(data)] + [len(data)]
+    wanted = [i for i in range(len(starts) - 1) if data.find(marker, starts[i], starts[i + 1]) >= 0]
+    if not wanted:
+        return []
+    step = max(1, (len(wanted) + nparts - 1) // nparts)
+    out = []
+    for a in range(0, len(wanted), step):
+        grp = wanted[a:a + step]
+        out.append((path, starts[grp[0]], starts[grp[-1] + 1]))
+    return out
 
 
 # ----------------------------------------------------------------------------------------------------------------
@@ -528,19 +537,18 @@ def run(tier, seed, ev, vd):
     all_events = []
     deviations = 0
     with mp.Pool(tlc.NCPU) as pool:
-        for ui, uni in enumerate(universes(tier, seed)):
-            res = tlc.run('Output', CFG, consts=consts_of(uni), dump=True, coverage=True, timeout=2400)
+        for ui, (uni, maxmols) in enumerate(universes(tier, seed)):
+            res = tlc.run('Output', CFG, consts=consts_of(uni, maxmols), dump=True, timeout=2400)
             if res.violated:
                 raise tlc.MachineryError('Output model (universe %d) violates %s' % (ui, res.violated))
-            for act in ('Name', 'SortAtoms', 'SkipSort', 'WritePDB', 'WriteTop'):
-                if res.coverage and res.coverage.get(act, (0, 0))[1] == 0:
-                    raise tlc.MachineryError('vacuous model: action %s never taken' % act)
-            ev.add_tlc('MC Output universe %d (%d variants)' % (ui, len(uni)), res)
+            ev.add_tlc('MC Output universe %d (%d variants, <= %d molecules)' % (ui, len(uni), maxmols), res)
             jobs = [(p, lo, hi, seed * 1000 + i * 100000) for i, (p, lo, hi) in enumerate(_dump_ranges(res.dump_path, tlc.NCPU * 4))]
             outs = pool.map(_replay_range, jobs)
             n = sum(o['n'] for o in outs)
-            if n == 0:
-                raise tlc.MachineryError('no final state in the dump of universe %d' % ui)
+            seen = {(e['scenario']['dedup'], e['scenario']['sorted'], len(set(e['names'])) < len(e['names']))
+                    for o in outs for e in o['events'] if 'names' in e}
+            if n == 0 or len(seen) < 8:      # vacuity: dedup on/off x sorted or not x (some type shared | none shared)
+                raise tlc.MachineryError('vacuous model for universe %d: %d final states, cases %s' % (ui, n, sorted(seen)))
             nsys += n
             for o in outs:
                 ev.nontrivial.update(o['nontrivial'])
@@ -661,8 +669,8 @@ def selftest(seed):
     print('selftest C03 (TRACE): tampered files rejected: %s; the other %d runs accepted'
           % ({i: verdicts[i - 1] for i in sorted(expect)}, len(batch) - len(expect)))
     # TAB binding: the model's expectation for one system vs the real files, then with one expected name flipped
-    uni = universes('quick', seed)[0]
-    res = tlc.run('Output', CFG, consts=consts_of(uni[:3]), dump=True)
+    uni = universes('quick', seed)[0][0]
+    res = tlc.run('Output', CFG, consts=consts_of(uni[:3], 3), dump=True)
     st = next(s for s in res.states() if s['pc'] == 'done' and len(s['sys']) == 3 and s['dedup'] and len(set(s['ids'])) == 2)
     variants = [dict(v, order=tuple(v['order']), aid=tuple(v['aid'])) for v in itpw.norm(st['sys'])]
     names, files, own, _ = run_model_system(variants, st['dedup'], st['sorted'], 1)
